@@ -36,7 +36,8 @@ RULE = ("cases = (sample_depth in {1,2,5,32,100} (+3,4,7,8,16,33 thorough), samp
         "{1,2,3} (+5,7) x probe widths 1/14/24 bits (1/2/4 bytes per sample), the four trigger patterns (also during "
         "capture and read-out) followed by a trigger-free tail long enough for the last read-out; tx, sampling, complete "
         "and the internal stream handshake between StreamILA and the UART transmitter are compared with the model; "
-        "the monitor decodes tx with an independent 8N1 receiver; kind 4 = StreamILA(domain=sync, o_domain=usb) "
+        "the monitor decodes tx with an independent 8N1 receiver and checks the read-out schedule (byte k of a capture "
+        "accepted while the line is quiescent starts 4 - data_valid + 10*divisor*k cycles after the hand-over cycle); kind 4 = StreamILA(domain=sync, o_domain=usb) "
         "simulated with two free-running clocks (capture domain 10 ns; output domain 3 / 7 / 10 / 13 / 23 ns with "
         "fractional phase offsets so that edges never coincide), depths {1,3,40} (+2,5,16,17,20 thorough; 40 > the FIFO's "
         "depth, so w_rdy falls with a slow consumer), trigger patterns as before, output ready always / 40% / on-off "
@@ -699,6 +700,7 @@ def monitor_uart(D, p, dv, nbytes, stim, rows, whole=True):
 
     busy, start, complete, handed = False, None, 0, 0
     expected = []            # all samples of all captures, in order
+    accepted = []            # cycles in which a trigger was accepted, capture after capture
     stats = {"captures": 0, "readouts": 0, "blocked": 0}
     for t, (i, o) in enumerate(zip(stim, rows)):
         trig = i[0] & 1
@@ -727,6 +729,7 @@ def monitor_uart(D, p, dv, nbytes, stim, rows, whole=True):
             stats["readouts"] += 1
         elif not busy and trig:
             busy, start, complete, handed = True, t + 1, 0, 0
+            accepted.append(t)
             stats["captures"] += 1
     got, err = decode_8n1([r[2] for r in rows], dv)
     if err is not None and not whole and err[1] == "the trace ends inside a frame":
@@ -746,6 +749,28 @@ def monitor_uart(D, p, dv, nbytes, stim, rows, whole=True):
             fail(t0, "uart-byte", "byte %d on the line is %#04x; byte %d of recorded sample %d (little-endian) is %#04x"
                  % (n, b, n % nbytes, n // nbytes, want[n]))
             return fails, stats
+    # duration of the read-out (Lean: uart_readout_duration, exact): a capture whose trigger is accepted in cycle a while
+    # the line is quiescent (the last frame of the previous buffer has ended) shows `complete` in cycle a + D + 1, and
+    # byte k of its buffer starts exactly 4 - data_valid + 10*divisor*k cycles later, back to back (data_valid = 1 only for
+    # the first read-out after reset): the whole buffer is on the line 10*divisor*bytes*D + 3 - data_valid cycles after
+    # the hand-over cycle.  The UART exerts no back-pressure, so nothing in the stimulus can change this.
+    per = D * nbytes
+    stats["timed"] = 0
+    for m, a in enumerate(accepted):
+        if m > 0 and ((m * per - 1) >= len(got) or got[m * per - 1][0] + 10 * dv > a):
+            continue         # the transmitter was still busy with the previous buffer: no closed form checked here
+        first = a + D + 5 - (1 if m == 0 else 0)
+        for k in range(per):
+            n = m * per + k
+            if n >= len(got):
+                break
+            if got[n][0] != first + 10 * dv * k:
+                fail(got[n][0], "uart-readout-timing", "byte %d of capture %d (trigger accepted in cycle %d, line quiescent) "
+                     "starts in cycle %d; the read-out schedule requires cycle %d = hand-over cycle %d + %d + 10*%d*%d"
+                     % (k, m, a, got[n][0], first + 10 * dv * k, a + D + 1, first - (a + D + 1), dv, k))
+                return fails, stats
+        else:
+            stats["timed"] += 1
     if whole and len(got) != len(want):
         fail(len(rows) - 1, "uart-missing-bytes", "%d bytes on the line at the end of the trace, %d samples x %d bytes were "
              "captured (the trace ends with a trigger-free tail long enough for the whole read-out)"
@@ -781,7 +806,8 @@ def run_uart_case(desc):
     fails, stats = monitor_uart(D, p, dv, nbytes, stim, rows, whole)
     tags = ["kind=uart", "u-depth=%d" % D, "u-divisor=%d" % dv, "u-bytes=%d" % nbytes, "u-pre=%d" % p, "u-domain=" + dom,
             "u-readouts>=2" if stats["readouts"] >= 2 else "u-readouts=%d" % stats["readouts"],
-            "u-trigger-blocked" if stats["blocked"] else "u-no-blocked-trigger"]
+            "u-trigger-blocked" if stats["blocked"] else "u-no-blocked-trigger",
+            "u-timed>=2" if stats.get("timed", 0) >= 2 else "u-timed=%d" % stats.get("timed", 0)]
     return Case([3, D, p, dv, nbytes], stim, rows, fails, tags, desc, ["trigger", "inputs"],
                 ["sampling", "complete", "tx", "ila.stream.valid", "ila.stream.ready", "ila.stream.payload"])
 
